@@ -121,6 +121,7 @@ Fixpoint ws_loop (fuel : nat) (b : wblock) : res wblock :=
   match fuel with
   | O => OutOfFuel
   | S f =>
+    if wwidth b =? 0 then Ok (set_space b (spacetag b) 0) else
     let to_copy := N.min (wslen b) (wwidth b) in
     match spacetag b with
     | None => Panic 6
